@@ -10,6 +10,9 @@
            (for a = -0, h >= 0 the result is +0);  for size 1, h = (b-a)/0 is infinite or NaN and the element is NaN;
          - for dyadic endpoints on a common exponent and size 2^k + 1 every element is exactly the real grid point
            a + (b-a) i / (size-1); the last element is b itself.
+         - more generally, for endpoints ma 2^e, mb 2^e with (n - 1) | (mb - ma) (e.g. integer endpoints whose
+           difference is a multiple of the number of intervals: linspace(0,10,11)) the step and every element are exact;
+         - the step is finite whenever b - a is finite and 2 <= n < 2^53 (lin_h_finite).
        In general the last element is NOT b: linspace(0,1,50) ends in 0.99999999999999989 (Example below). *)
 From Coq Require Import ZArith Reals Floats Lia Lra List Bool Arith.
 From Flocq Require Import Core.Core IEEE754.BinarySingleNaN IEEE754.PrimFloat.
@@ -298,6 +301,112 @@ Proof.
   split; [exact R'|]. intros Nz. apply FR_inj_nonzero; auto. now rewrite R'.
 Qed.
 
+Local Open Scope Z_scope.
+(* exact division: the numerator is a multiple of the (integer-valued) denominator *)
+Lemma Dy_div_exact x y q c e : Dy x (q * c) e -> Dy y c 0 -> c <> 0 -> Z.abs q < 2 ^ 53 -> erange e ->
+  Dy (x / y)%float q e.
+Proof.
+  intros [Fx Rx] [Fy Ry] Hc Hb [He1 He2]. unfold Dy. rewrite div_equiv.
+  assert (Hc' : IZR c <> 0%R) by (now apply not_0_IZR).
+  assert (Hy : B2R (Prim2B y) <> 0%R).
+  { rewrite Ry. simpl. now rewrite Rmult_1_r. }
+  pose proof (Bdiv_correct prec emax HP HM mode_NE (Prim2B x) (Prim2B y) Hy) as H.
+  replace (B2R (Prim2B x) / B2R (Prim2B y))%R with (IZR q * bpow radix2 e)%R in H.
+  2:{ rewrite Rx, Ry, mult_IZR. simpl (bpow radix2 0). field. exact Hc'. }
+  rewrite round_dy in H by assumption.
+  rewrite Rlt_bool_true in H by now apply dy_lt_emax.
+  destruct H as (H1 & H2 & _). rewrite H1, H2, Fx. auto.
+Qed.
+
+(* the elements of linspace a b n when n - 1 divides the numerator of b - a *)
+Lemma linspace_elem_divisible (a b : PrimFloat.float) (ma mb d e : Z) (n i : nat) :
+  Dy a ma e -> Dy b mb e -> (2 <= n)%nat -> Z.of_nat n < 2 ^ 53 -> erange e ->
+  mb - ma = d * (Z.of_nat n - 1) ->
+  Z.abs (mb - ma) < 2 ^ 53 -> Z.abs ma < 2 ^ 53 -> Z.abs mb < 2 ^ 53 ->
+  (i < n)%nat ->
+  Dy (a + lin_h a b n * f_of_nat i)%float (ma + d * Z.of_nat i) e.
+Proof.
+  intros Da Db Hn Hn' He Hdiv Hd Ha Hb Hi.
+  set (N := Z.of_nat n - 1) in *. assert (HN : 1 <= N) by (unfold N; lia).
+  assert (Dden : Dy (f_of_nat n - 1)%float N 0).
+  { apply Dy_sub; [apply Dy_of_nat; lia|exact Dy_one|unfold N; lia|unfold erange; lia]. }
+  assert (Dd : Dy (b - a)%float (d * N) e) by (rewrite <- Hdiv; apply Dy_sub; auto).
+  assert (Hdd : Z.abs d <= Z.abs (mb - ma)) by (rewrite Hdiv, Z.abs_mul; nia).
+  assert (Dh : Dy (lin_h a b n) d e) by (unfold lin_h; apply (Dy_div_exact _ _ d N); auto; lia).
+  assert (Di : Dy (f_of_nat i) (Z.of_nat i) 0) by (apply Dy_of_nat; lia).
+  assert (Dp : Dy (lin_h a b n * f_of_nat i)%float (d * Z.of_nat i) e).
+  { rewrite <- (Z.add_0_r e). apply Dy_mul; auto; [|now rewrite Z.add_0_r].
+    rewrite Hdiv, Z.abs_mul in Hd. rewrite Z.abs_mul. rewrite (Z.abs_eq N) in Hd by lia.
+    rewrite (Z.abs_eq (Z.of_nat i)) by lia. nia. }
+  apply Dy_add; auto.
+  pose proof (abs_convex ma mb (Z.of_nat i) N (Z.max (Z.abs ma) (Z.abs mb)) ltac:(lia) ltac:(lia) ltac:(lia)) as C.
+  replace (ma * N + (mb - ma) * Z.of_nat i) with ((ma + d * Z.of_nat i) * N) in C by (rewrite Hdiv; ring).
+  rewrite Z.abs_mul, (Z.abs_eq N) in C by lia. nia.
+Qed.
+
+Local Open Scope R_scope.
+(* C15: endpoints a = ma 2^e, b = mb 2^e on a common exponent with (n - 1) | (mb - ma) -- e.g. integer endpoints whose
+   difference is a multiple of the number of intervals: the step and every element are exact *)
+Lemma linspace_exact_divisible_float_lemma (a b : PrimFloat.float) (ma mb d e : Z) (n : nat) (v : list PrimFloat.float) :
+  ffinite a -> FR a = IZR ma * bpow radix2 e -> ffinite b -> FR b = IZR mb * bpow radix2 e ->
+  (2 <= n)%nat -> (Z.of_nat n < 2 ^ 53)%Z -> (-1074 <= e <= 971)%Z ->
+  (mb - ma = d * (Z.of_nat n - 1))%Z ->
+  (Z.abs (mb - ma) < 2 ^ 53)%Z -> (Z.abs ma < 2 ^ 53)%Z -> (Z.abs mb < 2 ^ 53)%Z ->
+  linspace (F := SAF) a b n = Ok v ->
+  length v = n /\
+  (forall i, (i < n)%nat ->
+     ffinite (nth i v 0%float) /\
+     FR (nth i v 0%float) = FR a + (FR b - FR a) * INR i / INR (n - 1) /\
+     FR (nth i v 0%float) = IZR (ma + d * Z.of_nat i) * bpow radix2 e) /\
+  FR (nth (n - 1) v 0%float) = FR b /\
+  (FR b <> 0 -> nth (n - 1) v 0%float = b).
+Proof.
+  intros Fa Ra Fb Rb Hn Hn' He Hdiv Hd Ha Hb E.
+  assert (Da : Dy a ma e) by (split; assumption). assert (Db : Dy b mb e) by (split; assumption).
+  split; [now apply (linspace_length a b _ v)|].
+  assert (G : forall i, (i < n)%nat ->
+     ffinite (nth i v 0%float) /\
+     FR (nth i v 0%float) = FR a + (FR b - FR a) * INR i / INR (n - 1) /\
+     FR (nth i v 0%float) = IZR (ma + d * Z.of_nat i) * bpow radix2 e).
+  { intros i Hi. rewrite (linspace_nth a b _ v i E) by lia.
+    destruct (linspace_elem_divisible a b ma mb d e n i Da Db Hn Hn' He Hdiv Hd Ha Hb Hi) as [F R].
+    split; [exact F|]. split; [|exact R]. unfold FR at 1. rewrite R, Ra, Rb.
+    assert (EN : INR (n - 1) = IZR (Z.of_nat n - 1)).
+    { rewrite INR_IZR_INZ. f_equal. lia. }
+    assert (NZ : IZR (Z.of_nat n - 1) <> 0) by (apply not_0_IZR; lia).
+    rewrite EN, plus_IZR, mult_IZR, <- INR_IZR_INZ.
+    replace (IZR mb) with (IZR ma + IZR d * IZR (Z.of_nat n - 1)).
+    2:{ rewrite <- mult_IZR, <- plus_IZR. f_equal. lia. }
+    field. exact NZ. }
+  split; [exact G|].
+  destruct (G (n - 1)%nat ltac:(lia)) as (F & R & _).
+  assert (R' : FR (nth (n - 1) v 0%float) = FR b).
+  { rewrite R. field. apply not_0_INR. lia. }
+  split; [exact R'|]. intros Nz. apply FR_inj_nonzero; auto. now rewrite R'.
+Qed.
+
+(* sufficient conditions for a finite step h = (b - a)/((n as f64) - 1): b - a finite, 2 <= n < 2^53 *)
+Lemma lin_h_finite (a b : PrimFloat.float) (n : nat) :
+  ffinite (b - a)%float -> (2 <= n)%nat -> (Z.of_nat n < 2 ^ 53)%Z -> ffinite (lin_h a b n).
+Proof.
+  intros Fd Hn Hn'. unfold lin_h.
+  assert (Dden : Dy (f_of_nat n - 1)%float (Z.of_nat n - 1) 0).
+  { apply Dy_sub; [apply Dy_of_nat; lia|exact Dy_one|lia|unfold erange; lia]. }
+  destruct Dden as [Fy Ry]. simpl (bpow radix2 0) in Ry. rewrite Rmult_1_r in Ry.
+  assert (H1 : 1 <= IZR (Z.of_nat n - 1)) by (apply IZR_le; lia).
+  unfold ffinite in *. rewrite div_equiv.
+  assert (Hy : B2R (Prim2B (f_of_nat n - 1)%float) <> 0) by (rewrite Ry; lra).
+  pose proof (Bdiv_correct prec emax HP HM mode_NE (Prim2B (b - a)%float) (Prim2B (f_of_nat n - 1)%float) Hy) as H.
+  rewrite Rlt_bool_true in H.
+  - destruct H as (_ & H2 & _). now rewrite H2.
+  - apply Rle_lt_trans with (Rabs (B2R (Prim2B (b - a)%float))); [|now apply abs_B2R_lt_emax].
+    apply abs_round_le_generic; [apply fexp_correct; reflexivity|apply valid_rnd_N|apply generic_format_abs, generic_format_B2R|].
+    rewrite Ry. unfold Rdiv. rewrite Rabs_mult. rewrite <- (Rmult_1_r (Rabs (B2R (Prim2B (b - a)%float)))) at 2.
+    apply Rmult_le_compat_l; [apply Rabs_pos|].
+    rewrite Rabs_inv, (Rabs_pos_eq (IZR (Z.of_nat n - 1))) by lra.
+    rewrite <- Rinv_1. apply Rinv_le_contravar; lra.
+Qed.
+
 (* ---------------------------------------------------------------- non-vacuity and behaviour on concrete floats *)
 Lemma Dy_intro x m e : is_finite_SF (Prim2SF x) = true -> SF2R radix2 (Prim2SF x) = IZR m * bpow radix2 e -> Dy x m e.
 Proof. intros H1 H2. unfold Dy, Prim2B. now rewrite is_finite_SF2B, B2R_SF2B. Qed.
@@ -329,3 +438,11 @@ Example linspace_last_not_b :
   exists v, linspace (F := SAF) 0%float 1%float 50 = Ok v /\ PrimFloat.eqb (nth 49 v 0%float) 1%float = false /\
             PrimFloat.ltb (nth 49 v 0%float) 1%float = true.
 Proof. eexists. split; [vm_compute; reflexivity|]. split; vm_compute; reflexivity. Qed.
+
+Example linspace_exact_divisible_example :
+  linspace (F := SAF) (-3)%float 12%float 6 = Ok [-3; 0; 3; 6; 9; 12]%float.
+Proof. vm_compute. reflexivity. Qed.
+Example ex_lin_m3 : Dy (-3)%float (-3) 0.
+Proof. dyw. Qed.
+Example ex_lin_12 : Dy 12%float 12 0.
+Proof. dyw. Qed.
